@@ -35,6 +35,11 @@ type BridgeCfg struct {
 	NoFeeVals map[int]bool
 	// NoFeeChains: chains for which no validator registers a relayer fee (the chain never gets a relayer).
 	NoFeeChains map[string]bool
+	// EstimateHoldPerMille: chance that the relayers' RPC nodes cannot simulate a particular message for a while,
+	// so that its gas estimate is elected later than that of younger messages.
+	EstimateHoldPerMille int
+	// NoAcctOn: validator index -> chains on which it never registers an account (it has accounts on the others).
+	NoAcctOn map[int]map[string]bool
 	// NoChainVals: validators that never register external accounts.
 	NoChainVals  map[int]bool
 	CommunityFee string
@@ -49,6 +54,7 @@ type BridgeCfg struct {
 
 // Bridge is a Sim plus remote chains and one pigeon per validator.
 type Bridge struct {
+	estHold map[uint64]int64
 	*Sim
 	BCfg    BridgeCfg
 	Chains  map[string]*evmsim.Chain
@@ -140,6 +146,26 @@ func (b *Bridge) Step() *world.BlockResult {
 		b.Chains[id].Mine(b.Now.Unix() + b.BCfg.EvmSkewSeconds)
 	}
 	return br
+}
+
+// holdEstimate decides once per message (for all relayers alike) whether its estimation is held back, and until when.
+func (b *Bridge) holdEstimate(id uint64) bool {
+	if b.BCfg.EstimateHoldPerMille == 0 {
+		return false
+	}
+	if b.estHold == nil {
+		b.estHold = map[uint64]int64{}
+	}
+	until, seen := b.estHold[id]
+	if !seen {
+		until = 0
+		if b.T.Chance(uint64(b.BCfg.EstimateHoldPerMille), 1000) {
+			until = b.N.Height + int64(2+b.T.Intn(12))
+			b.R.Stats.Fault("estimate_held_back")
+		}
+		b.estHold[id] = until
+	}
+	return b.N.Height < until
 }
 
 // ChainActive reports whether Paloma considers the chain active.
